@@ -18,15 +18,20 @@ void MEDDLY::forest::getValueForEdge(const edge_value &, node_handle, rangeval &
 #ifndef EV
 #define EV 1
 #endif
+// ENTRY 0: first_pri(1,p) on a relation; 1: first_unpr(1,p) on a relation (bound unprimed step, then the bound primed step);
+// 2: first_unpr(1,p) on a set forest (fully / quasi reduced; a terminal below level 1 means the level is skipped)
+#ifndef ENTRY
+#define ENTRY 0
+#endif
 #if EV
 typedef EdgeOp_plus<long> THE_EOP;
 #else
 typedef EdgeOp_none THE_EOP;
 #endif
 
-static minterm* mk_minterm(int from, int to) {
+static minterm* mk_minterm(int from, int to, bool rel) {
   minterm* m = (minterm*) calloc(1, sizeof(minterm));
-  m->num_vars = 1; m->for_relations = true;
+  m->num_vars = 1; m->for_relations = rel;
   m->_from = (int*) calloc(2, sizeof(int)); m->_to = (int*) calloc(2, sizeof(int));
   m->_from[1] = from; m->_to[1] = to;
   return m;
@@ -35,9 +40,11 @@ static minterm* mk_minterm(int from, int to) {
 extern "C" void c11_iter_skip()
 {
   bool fully = vp_nondet_bool();
+  const bool rel = (ENTRY != 2);
+  const reduction_rule other = rel ? reduction_rule::IDENTITY_REDUCED : reduction_rule::QUASI_REDUCED;
   forest* f = EV
-    ? forest_record(true, range_type::INTEGER, edge_labeling::EVPLUS, fully ? reduction_rule::FULLY_REDUCED : reduction_rule::IDENTITY_REDUCED, edge_type::LONG, terminal_type::OMEGA)
-    : forest_record(true, range_type::BOOLEAN, edge_labeling::MULTI_TERMINAL, fully ? reduction_rule::FULLY_REDUCED : reduction_rule::IDENTITY_REDUCED, edge_type::VOID, terminal_type::BOOLEAN);
+    ? forest_record(rel, range_type::INTEGER, edge_labeling::EVPLUS, fully ? reduction_rule::FULLY_REDUCED : other, edge_type::LONG, terminal_type::OMEGA)
+    : forest_record(rel, range_type::BOOLEAN, edge_labeling::MULTI_TERMINAL, fully ? reduction_rule::FULLY_REDUCED : other, edge_type::VOID, terminal_type::BOOLEAN);
 
   int from = int(vp_range(0, 3));
   bool dontchange = vp_nondet_bool();
@@ -45,8 +52,8 @@ extern "C" void c11_iter_skip()
 
   dd_edge::iterator* I = (dd_edge::iterator*) calloc(1, sizeof(dd_edge::iterator));
   I->F = f;
-  I->M = mk_minterm(from, mto);          // as restart() leaves it: bound entries copied from the mask
-  I->mask = mk_minterm(from, mto);
+  I->M = mk_minterm(from, mto, ENTRY != 2);          // as restart() leaves it: bound entries copied from the mask
+  I->mask = mk_minterm(from, mto, ENTRY != 2);
   I->U_from = (unpacked_node**) calloc(3, sizeof(unpacked_node*));
   I->U_to   = (unpacked_node**) calloc(3, sizeof(unpacked_node*));   // null: bound variable
   I->Z_from = (unsigned*) calloc(3, sizeof(unsigned));
@@ -54,21 +61,21 @@ extern "C" void c11_iter_skip()
   I->ev_from = (edge_value*) calloc(3, sizeof(edge_value));
   I->ev_to   = (edge_value*) calloc(3, sizeof(edge_value));
   long up = long(vp_range(0, 7));
-  if (EV) I->ev_from[1].set(up);
+  if (EV) { if (ENTRY == 0) I->ev_from[1].set(up); else if (ENTRY == 1) I->ev_to[2].set(up); else I->ev_from[2].set(up); }
 
   node_handle p = vp_nondet_bool() ? 0 : -1;      // the edge below the skipped level: the transparent terminal or not
   iterator_templ<THE_EOP> IT(*I);
-  bool found = IT.first_pri(1, p);
+  bool found = (ENTRY == 0) ? IT.first_pri(1, p) : IT.first_unpr(1, p);
 
   int resolved = dontchange ? from : mto;
-  bool expect = (p != 0) && (fully || from == resolved);
+  bool expect = (p != 0) && (!rel || fully || from == resolved);
   vp_cover(1);
   vp_assert(found == expect, "a skipped primed level continues exactly when the rule lets the fixed 'to' value through (identity: to == from, with DONT_CHANGE meaning to := from)");
   if (found) {
     vp_cover(2);
-    vp_assert(I->M->_to[1] == resolved, "the reported 'to' entry is the mask entry, DONT_CHANGE resolved to the 'from' entry");
+    if (rel) vp_assert(I->M->_to[1] == resolved, "the reported 'to' entry is the mask entry, DONT_CHANGE resolved to the 'from' entry");
     vp_assert(I->M->_from[1] == from, "the reported 'from' entry is unchanged");
-    if (EV) { long v; I->ev_to[1].get(v); vp_assert(v == up, "the accumulated edge value passes a skipped level unchanged"); }
+    if (EV) { long v; if (rel) I->ev_to[1].get(v); else I->ev_from[1].get(v); vp_assert(v == up, "the accumulated edge value passes a skipped level unchanged"); }
   }
   vp_reach();
 }
